@@ -195,6 +195,8 @@ package server
 //@ func (t *Teamserver) LinkAdd(ParentAgent *agent.Agent, LinkAgent *agent.Agent) (err error)
 //@   requires nonnil: t != nil && t.DB != nil && t.DB.db != nil && ParentAgent != nil && LinkAgent != nil
 //@   guard-call ids: "LinkAdd" arg(1) == int(ParentAgentID) && arg(2) == int(LinkAgentID)
+// session names are hexadecimal: both ids are read as such, wide enough for every 32-bit id
+//@   guard-call idbase: "ParseInt" arg(1) == 16 && arg(2) == 64 && (arg(0) == ParentAgent.NameID || arg(0) == LinkAgent.NameID)
 //@   ensures ok: err == nil
 
 // Removing the link parent -> child: the child is marked inactive, the database
@@ -272,10 +274,14 @@ package server
 // anybody, whether or not the profile configures a Service (t.Service is nil without one).
 //@ func (t *Teamserver) ServiceAgentExist(MagicValue int) (r bool)
 //@   requires nonnil: t != nil
+// both lookups spell the magic value the same way ("0x" and the hex digits, no padding), so that an
+// agent type that exists can also be fetched
+//@   guard-call spelling: "Sprintf" arg(0) == "0x%x" && len(arg(1)) == 1 && typeis(arg(1)[0], int) && unboxed(arg(1)[0], int) == MagicValue
 //@   requires entries: t.Service != nil ==> forall(i, 0, len(t.Service.Agents), t.Service.Agents[i] != nil)
 //@   ensures noservice: t.Service == nil ==> !r
 //@   loop "for _, agentService := range t.Service.Agents"
 //@     invariant none: true
 //@ func (t *Teamserver) ServiceAgent(MagicValue int) (r agent.ServiceAgentInterface)
 //@   requires nonnil: t != nil
+//@   guard-call spelling: "Sprintf" arg(0) == "0x%x" && len(arg(1)) == 1 && typeis(arg(1)[0], int) && unboxed(arg(1)[0], int) == MagicValue
 //@   requires entries: t.Service != nil ==> forall(i, 0, len(t.Service.Agents), t.Service.Agents[i] != nil)
